@@ -52,8 +52,9 @@ class Containers(object):
         return x
 
 
-def render_form(f):
-    elems = [('c%d' % c) if n else c - 1 for c, n in zip(f['xs'], f['named'])]
+def render_form(f, nch=2):
+    # named: 0 position, 1 name, 2 negative position (counted from the last of the container's nch channels)
+    elems = [('c%d' % c) if n == 1 else (c - 1 - nch if n == 2 else c - 1) for c, n in zip(f['xs'], f['named'])]
     if f['t'] == 'absent':
         return None
     if f['t'] in ('pos', 'name'):
@@ -184,13 +185,13 @@ def main(chk, replay=None):
                         return -5 if (kind == 'array-float' and pos % 2) else 0
                     return 10 ** code
                 x = C.get([[val(c, p) for p, c in enumerate(e)] for e in ev], kind, 3)
-                ch = render_form(form)
+                ch = render_form(form, 3)
                 call = lambda fo: FlowCal.gate.ellipse(x, ch, center=[cx, cy], a=a, b=b, theta=0, log=True, full_output=fo)   # noqa
                 label = 'ellipse-log/%s/%dch' % (kind, len(form['xs']))
             else:
                 ev, kind, form, (cx, cy, a, b) = scn
                 x = C.get([list(e) for e in ev], kind, 3)
-                ch = render_form(form)
+                ch = render_form(form, 3)
                 call = lambda fo: FlowCal.gate.ellipse(x, ch, center=[cx, cy], a=a, b=b, theta=0, full_output=fo)   # noqa
                 label = 'ellipse/%s/%dch' % (kind, len(form['xs']))
             before = (np.asarray(x.view(np.ndarray)).tobytes(), repr(meta_of(x)))
